@@ -9,7 +9,7 @@ RULE = ('12 libFuzzer targets (clang: coverage-guided fuzzer + ASan + UBSan, T0 
         'script of records sealed with the peer\'s real keys by the independent record layer, restored from a snapshot per input), X.509 validator '
         '(static and dynamic anchors, name elements), certificate decoder, private/public key decoders, PEM decoder, ECDSA converters and verifiers, '
         'RSA public operations, EC mul/muladd of every implementation; the second input byte seeds the chunking. Seed corpora are generated at '
-        'run time: recorded valid handshakes of every key kind x client-auth kind, all test/x509 certificates, fixture keys, PEM, valid signatures, '
+        'run time: recorded valid handshakes of every key kind x client-auth kind and their framing variants (each cleartext record up to ChangeCipherSpec extended by extra bytes, delivered byte by byte or header-then-one-byte), all test/x509 certificates, fixture keys, PEM, valid signatures, '
         'and boundary structures with key/signature sizes at and just beyond every internal buffer (255..257, 511..513, 519..522, 1535..1561 bytes). '
         'After each decoder/crypto target the resulting corpus is replayed once under MemorySanitizer (clang, origins tracked). Oracles: no sanitizer report, no H2 failure, interpreter steps per push <= 200000 + 4000*bytes, status getters consistent. Bounded by -runs. '
         'distinct_nontrivial = libFuzzer coverage features reached (ft) summed over targets.')
@@ -20,11 +20,12 @@ ASSUMPTIONS = [
 ]
 EVAL = ['execs']
 DISTINCT = []
-REQUIRED = ['execs', 'targets_completed', 't0_steps', 'seeds', 'msan_units_replayed']
+REQUIRED = ['execs', 'targets_completed', 't0_steps', 'seeds', 'msan_units_replayed',
+            'pre_target_handshakes_completed_client', 'pre_target_handshakes_completed_server']
 PARALLEL = 12
 
 TARGETS = [  # name, quick runs, max_len
-    ('client_pre', 6000, 20000), ('server_pre', 8000, 8000), ('client_post', 30000, 4000), ('server_post', 30000, 4000),
+    ('client_pre', 7000, 20000), ('server_pre', 9000, 8000), ('client_post', 30000, 4000), ('server_post', 30000, 4000),
     ('x509_minimal', 10000, 20000), ('x509_decoder', 30000, 8000), ('skey', 20000, 16000), ('pkey', 20000, 8000),
     ('pem', 20000, 20000), ('ecdsa', 1200, 600), ('rsa_pub', 2500, 2400), ('ec_pub', 1500, 300),
 ]
@@ -66,6 +67,9 @@ def on_job_done(job, rc, out, err, res):
         res.max('max_steps_per_byte_x10', int(float(m.group(6)) * 10))
         res.stat('t0_steps', int(m.group(7)))
         res.stat('c06_checks', max(0, int(m.group(8))))
+    m = re.search(r'hs_completed=(\d+)', txt)
+    if m and job.tag in ('client_pre', 'server_pre'):
+        res.stat('pre_target_handshakes_completed_' + job.tag.split('_')[0], int(m.group(1)))
     cov = re.findall(r'cov: (\d+) ft: (\d+) corp: (\d+)', txt)
     if cov:
         c, ft, corp = map(int, cov[-1])
